@@ -159,8 +159,9 @@ struct Spec {
 	bool locked = false; // LOCKEDNORM NiIntegersExtraData attached
 	int nbones = 0;
 	bool eye = false;
+	bool raw_vert_weights = false; // hand every influence to SetShapeVertWeights instead of the four strongest
 	std::string label() const {
-		return std::string(kind_id(kind)) + "/" + game_name(game) + "/" + (skinned ? "skinned" : "static");
+		return std::string(kind_id(kind)) + "/" + game_name(game) + "/" + (skinned ? "skinned" : "static") + (eye ? "+eye" : "");
 	}
 };
 
@@ -190,7 +191,7 @@ inline void manual_skinning(NifFile& nif, NiShape* shape) {
 }
 
 // Attach bones + weights to an already skinned shape (both weight stores where the format has both)
-inline void set_weights(NifFile& nif, NiShape* shape, int nbones, const Weights& w) {
+inline void set_weights(NifFile& nif, NiShape* shape, int nbones, const Weights& w, bool raw_vert_weights = false) {
 	auto& hdr = nif.GetHeader();
 	std::vector<int> ids;
 	for (int b = 0; b < nbones; b++) {
@@ -217,7 +218,7 @@ inline void set_weights(NifFile& nif, NiShape* shape, int nbones, const Weights&
 		for (size_t v = 0; v < w.size(); v++) {
 			VW s = w[v];
 			std::stable_sort(s.begin(), s.end(), [](const std::pair<int, float>& a, const std::pair<int, float>& b2) { return a.second > b2.second; });
-			if (s.size() > 4) s.resize(4); // a caller hands over at most the four strongest influences
+			if (s.size() > 4 && !raw_vert_weights) s.resize(4); // a caller hands over at most the four strongest influences
 			std::vector<uint8_t> bi;
 			std::vector<float> bwts;
 			for (auto& e : s) { bi.push_back((uint8_t) e.first); bwts.push_back(e.second); }
@@ -251,13 +252,13 @@ inline NiShape* build_shape(NifFile& nif, const Spec& sp, const Mesh& m, const W
 	};
 	switch (sp.kind) {
 		case K_TRISHAPE:
-			shape = nif.CreateShapeFromData("S", &m.pos, &m.tris, &m.uv, &m.nrm);
+			shape = nif.CreateShapeFromData("S", &m.pos, &m.tris, &m.uv, nullptr);
 			break;
 		case K_BSTRI:
-			if (sp.game == G_SSE) shape = nif.CreateShapeFromData("S", &m.pos, &m.tris, &m.uv, &m.nrm);
+			if (sp.game == G_SSE) shape = nif.CreateShapeFromData("S", &m.pos, &m.tris, &m.uv, nullptr);
 			else {
 				auto s = std::make_unique<BSTriShape>();
-				s->Create(ver, &m.pos, &m.tris, &m.uv, &m.nrm);
+				s->Create(ver, &m.pos, &m.tris, &m.uv, nullptr);
 				s->SetSkinned(false);
 				uint32_t id; auto raw = add_block(nif, std::move(s), &id);
 				attach(raw, id);
@@ -265,10 +266,10 @@ inline NiShape* build_shape(NifFile& nif, const Spec& sp, const Mesh& m, const W
 			break;
 		case K_BSSUB:
 		case K_BSSUB_SEG:
-			if (sp.game == G_FO4) shape = nif.CreateShapeFromData("S", &m.pos, &m.tris, &m.uv, &m.nrm);
+			if (sp.game == G_FO4) shape = nif.CreateShapeFromData("S", &m.pos, &m.tris, &m.uv, nullptr);
 			else {
 				auto s = std::make_unique<BSSubIndexTriShape>();
-				s->Create(ver, &m.pos, &m.tris, &m.uv, &m.nrm);
+				s->Create(ver, &m.pos, &m.tris, &m.uv, nullptr);
 				s->SetSkinned(false);
 				s->SetSegments(sse_segments(T));
 				uint32_t id; auto raw = add_block(nif, std::move(s), &id);
@@ -277,7 +278,7 @@ inline NiShape* build_shape(NifFile& nif, const Spec& sp, const Mesh& m, const W
 			break;
 		case K_BSDYN: {
 			auto s = std::make_unique<BSDynamicTriShape>();
-			s->Create(ver, &m.pos, &m.tris, &m.uv, &m.nrm);
+			s->Create(ver, &m.pos, &m.tris, &m.uv, nullptr);
 			s->SetSkinned(false);
 			uint32_t id; auto raw = add_block(nif, std::move(s), &id);
 			attach(raw, id);
@@ -285,7 +286,7 @@ inline NiShape* build_shape(NifFile& nif, const Spec& sp, const Mesh& m, const W
 		}
 		case K_BSMESHLOD: {
 			auto s = std::make_unique<BSMeshLODTriShape>();
-			s->Create(ver, &m.pos, &m.tris, &m.uv, &m.nrm);
+			s->Create(ver, &m.pos, &m.tris, &m.uv, nullptr);
 			s->SetSkinned(false);
 			s->lodSize0 = T / 2; s->lodSize1 = T - T / 2; s->lodSize2 = 0;
 			uint32_t id; auto raw = add_block(nif, std::move(s), &id);
@@ -294,7 +295,7 @@ inline NiShape* build_shape(NifFile& nif, const Spec& sp, const Mesh& m, const W
 		}
 		case K_TRISTRIPS: {
 			auto d = std::make_unique<NiTriStripsData>();
-			d->Create(ver, &m.pos, nullptr, &m.uv, &m.nrm);
+			d->Create(ver, &m.pos, nullptr, &m.uv, nullptr);
 			d->stripsInfo.hasPoints = true;
 			d->stripsInfo.points = m.strips;
 			uint32_t nt = 0;
@@ -315,7 +316,7 @@ inline NiShape* build_shape(NifFile& nif, const Spec& sp, const Mesh& m, const W
 		case K_SEGMENTED:
 		case K_LOD: {
 			auto d = std::make_unique<NiTriShapeData>();
-			d->Create(ver, &m.pos, &m.tris, &m.uv, &m.nrm);
+			d->Create(ver, &m.pos, &m.tris, &m.uv, nullptr);
 			uint32_t did; auto draw = add_block(nif, std::move(d), &did);
 			if (sp.kind == K_SEGMENTED) {
 				auto s = std::make_unique<BSSegmentedTriShape>();
@@ -338,6 +339,9 @@ inline NiShape* build_shape(NifFile& nif, const Spec& sp, const Mesh& m, const W
 		default: break;
 	}
 	if (!shape) { if (err) *err = "shape not created"; return nullptr; }
+	// normals are handed over after creation: Create() would derive a tangent space from them, and the
+	// SM normals are deliberately not unit vectors (pairwise distinct bytes), which that code does not expect
+	nif.SetNormalsForShape(shape, m.nrm);
 	nif.SetColorsForShape(shape, m.col);
 	nif.SetTangentsForShape(shape, m.tan);
 	nif.SetBitangentsForShape(shape, m.bit);
@@ -364,7 +368,7 @@ inline NiShape* build_shape(NifFile& nif, const Spec& sp, const Mesh& m, const W
 		if (sp.kind == K_LOD) manual_skinning(nif, shape);
 		else nif.CreateSkinning(shape);
 		if (shape->SkinInstanceRef()->IsEmpty()) { if (err) *err = "no skin instance"; return nullptr; }
-		if (w) set_weights(nif, shape, sp.nbones, *w);
+		if (w) set_weights(nif, shape, sp.nbones, *w, sp.raw_vert_weights);
 		nif.UpdateSkinPartitions(shape);
 	}
 	if (sp.locked) {
@@ -529,12 +533,12 @@ inline void validity(NifFile& nif, NiShape* shape, std::vector<Problem>& out) {
 				if (!sg.segments.empty() && sg.numPrimitives != ntris) P("segment-numprimitives", vf::strf("segmentation.numPrimitives %u but %u triangles", sg.numPrimitives, ntris));
 				for (size_t i = 0; i < sg.segments.size(); i++) {
 					auto& g = sg.segments[i];
-					if ((uint64_t) g.startIndex / 3 + g.numPrimitives > ntris)
+					if (g.numPrimitives && (uint64_t) g.startIndex / 3 + g.numPrimitives > ntris)
 						P("segment-range", vf::strf("segment %zu covers triangles [%u,%u) of %u", i, g.startIndex / 3, g.startIndex / 3 + g.numPrimitives, ntris));
 					if (g.numSubSegments != g.subSegments.size()) P("segment-count", vf::strf("segment %zu: numSubSegments %u but %zu stored", i, g.numSubSegments, g.subSegments.size()));
 					for (size_t j = 0; j < g.subSegments.size(); j++) {
 						auto& ss = g.subSegments[j];
-						if ((uint64_t) ss.startIndex / 3 + ss.numPrimitives > ntris)
+						if (ss.numPrimitives && (uint64_t) ss.startIndex / 3 + ss.numPrimitives > ntris)
 							P("subsegment-range", vf::strf("segment %zu sub %zu covers triangles [%u,%u) of %u", i, j, ss.startIndex / 3, ss.startIndex / 3 + ss.numPrimitives, ntris));
 					}
 				}
@@ -543,7 +547,7 @@ inline void validity(NifFile& nif, NiShape* shape, std::vector<Problem>& out) {
 				if (sub->numSegments != sub->segments.size()) P("segment-count", vf::strf("numSegments %u but %zu segments", sub->numSegments, sub->segments.size()));
 				for (size_t i = 0; i < sub->segments.size(); i++) {
 					auto& g = sub->segments[i];
-					if ((uint64_t) g.index / 3 + g.numTris > ntris)
+					if (g.numTris && (uint64_t) g.index / 3 + g.numTris > ntris)
 						P("segment-range", vf::strf("segment %zu covers triangles [%u,%u) of %u", i, g.index / 3, g.index / 3 + g.numTris, ntris));
 				}
 			}
@@ -584,7 +588,7 @@ inline void validity(NifFile& nif, NiShape* shape, std::vector<Problem>& out) {
 			if (seg->numSegments != seg->segments.size()) P("segment-count", vf::strf("numSegments %u but %zu segments", seg->numSegments, seg->segments.size()));
 			for (size_t i = 0; i < seg->segments.size(); i++) {
 				auto& g = seg->segments[i];
-				if ((uint64_t) g.index / 3 + g.numTris > ntris)
+				if (g.numTris && (uint64_t) g.index / 3 + g.numTris > ntris)
 					P("segment-range", vf::strf("segment %zu covers triangles [%u,%u) of %u", i, g.index / 3, g.index / 3 + g.numTris, ntris));
 			}
 		}
